@@ -12,6 +12,7 @@ import (
 	"hash/fnv"
 	"io"
 	"os"
+	"reflect"
 	"runtime"
 	"sort"
 	"strconv"
@@ -126,8 +127,11 @@ type Sim struct {
 	StdoutW io.Writer
 	StderrW io.Writer
 
+	pendingW map[uintptr]int // writers waiting per lock (sync.RWMutex writer preference)
+
 	// counters
-	LockContention int
+	LockContention     int
+	ReaderBehindWriter int
 	IdleJumps      int
 	Start          time.Time
 
@@ -143,7 +147,7 @@ func Cur() *Sim { return cur.Load() }
 
 func New(t *Tape) *Sim {
 	h := fnv.New64a()
-	s := &Sim{T: t, byGoid: map[uintptr]*G{}, live: map[string]*G{}, parked: map[string]*G{}, h: h, hw: h, Budget: 1 << 20, traceCap: 1 << 16}
+	s := &Sim{T: t, byGoid: map[uintptr]*G{}, live: map[string]*G{}, parked: map[string]*G{}, pendingW: map[uintptr]int{}, h: h, hw: h, Budget: 1 << 20, traceCap: 1 << 16}
 	return s
 }
 
@@ -363,10 +367,70 @@ func (s *Sim) start(g *G, f func()) {
 	<-ready
 }
 
-// Lock emulates a blocking lock acquisition with try-locks, so that a
-// goroutine can be preempted while it holds the lock and waiters are simply
-// not eligible.  try and lock are the method values x.TryLock and x.Lock.
-func Lock(site string, try func() bool, lock func()) {
+// lockID finds the address of the sync.Mutex / sync.RWMutex that x.Lock()
+// resolves to, given &x: through pointers and embedded fields.  0 = unknown.
+var mutexType = reflect.TypeOf(sync.Mutex{})
+var rwMutexType = reflect.TypeOf(sync.RWMutex{})
+
+func lockID(p interface{}) (id uintptr) {
+	defer func() {
+		if recover() != nil {
+			id = 0
+		}
+	}()
+	return findMutex(reflect.ValueOf(p), 0)
+}
+
+func findMutex(v reflect.Value, depth int) uintptr {
+	for v.Kind() == reflect.Ptr || v.Kind() == reflect.Interface {
+		if v.IsNil() {
+			return 0
+		}
+		if v.Kind() == reflect.Ptr && (v.Type().Elem() == mutexType || v.Type().Elem() == rwMutexType) {
+			return v.Pointer()
+		}
+		v = v.Elem()
+	}
+	if v.Type() == mutexType || v.Type() == rwMutexType {
+		if v.CanAddr() {
+			return v.Addr().Pointer()
+		}
+		return 0
+	}
+	if v.Kind() != reflect.Struct || depth > 4 {
+		return 0
+	}
+	for i := 0; i < v.NumField(); i++ {
+		f := v.Type().Field(i)
+		if !f.Anonymous {
+			continue
+		}
+		fv := v.Field(i)
+		switch {
+		case f.Type == mutexType || f.Type == rwMutexType:
+			if fv.CanAddr() {
+				return fv.Addr().Pointer()
+			}
+		case f.Type.Kind() == reflect.Ptr && (f.Type.Elem() == mutexType || f.Type.Elem() == rwMutexType):
+			if !fv.IsNil() {
+				return fv.Pointer()
+			}
+		case f.Type.Kind() == reflect.Struct || f.Type.Kind() == reflect.Ptr:
+			if id := findMutex(fv, depth+1); id != 0 {
+				return id
+			}
+		}
+	}
+	return 0
+}
+
+// Lock emulates a blocking write-lock (or sync.Mutex) acquisition with
+// try-locks, so that a goroutine can be preempted while it holds the lock and
+// waiters are simply not eligible.  obj is &x for the call x.Lock(); try and
+// lock are the method values x.TryLock and x.Lock.  A writer that has to wait
+// is recorded as pending: as with the real sync.RWMutex, new readers then
+// queue behind it (so a recursive read lock deadlocks as it does for real).
+func Lock(site string, obj interface{}, try func() bool, lock func()) {
 	s := cur.Load()
 	var g *G
 	if s != nil {
@@ -376,16 +440,59 @@ func Lock(site string, try func() bool, lock func()) {
 		lock()
 		return
 	}
-	first := true
+	id := lockID(obj)
+	pending := false
 	for {
 		s.park(g, site)
 		if try() {
+			if pending {
+				s.mu.Lock()
+				s.pendingW[id]--
+				s.mu.Unlock()
+			}
+			return
+		}
+		s.mu.Lock()
+		g.waiting = true
+		if !pending {
+			s.LockContention++
+			if id != 0 {
+				s.pendingW[id]++
+				pending = true
+			}
+		}
+		s.mu.Unlock()
+	}
+}
+
+// RLock is Lock for read locks (x.RLock()).
+func RLock(site string, obj interface{}, try func() bool, lock func()) {
+	s := cur.Load()
+	var g *G
+	if s != nil {
+		g = s.me()
+	}
+	if g == nil {
+		lock()
+		return
+	}
+	id := lockID(obj)
+	first := true
+	for {
+		s.park(g, site)
+		s.mu.Lock()
+		blocked := id != 0 && s.pendingW[id] > 0
+		s.mu.Unlock()
+		if !blocked && try() {
 			return
 		}
 		s.mu.Lock()
 		g.waiting = true
 		if first {
 			s.LockContention++
+			if blocked {
+				s.ReaderBehindWriter++
+			}
 			first = false
 		}
 		s.mu.Unlock()
@@ -464,9 +571,9 @@ func (s *Sim) Run(root func()) string {
 			}
 			if nparked > 0 {
 				// everything parked is waiting on a lock nobody will release
-				if s.rootDone.Load() {
-					return Done
-				}
+				s.mu.Lock()
+				s.logLocked("lock deadlock: every remaining goroutine waits for a lock")
+				s.mu.Unlock()
 				return Deadlock
 			}
 			// Idle: let the bubble clock advance to the next timer of a sleeper,
